@@ -159,6 +159,15 @@ CHECKS = {
              "forms) that must fail; number/quantity x constant products and quotients keep the stored number bit-for-bit with the right unit.",
         note="'Available' = the use compiles.  Floating tolerance as C11.",
         technique="C11's TLA+ magnitude evaluation applied to constant/unit ratios (trace validation by TLC) + failing probes + raw-value mixin checks", ref="6/C16"),
+    "C17": dict(
+        text="A duration<Rep, Period> is the quantity <seconds x Period, Rep, count> (Gen_Chrono.tla on top of QuantityBig/PolicyBig).  TLC emits "
+             "600 (duration type, quantity type) instances with C08's mixed-operation contract and C06's acceptance verdict on Period / unit.  "
+             "Compiled is_convertible / is_constructible queries must equal the verdict (and the corresponding quantity's own answer); "
+             "as_quantity keeps count bit-for-bit, rep and unit seconds x Period, and the way back (implicit and as_chrono_duration) returns the "
+             "same count and reduced period for 40 duration types; mixed ==, !=, <, <=, >, >=, +, - in both operand orders are swept against the "
+             "contract and against chrono's own answer, and TLC re-derives every disagreement, boundary pair and sampled agreement.",
+        note="libstdc++'s chrono is the reference for 'inside chrono'.  Agreement is demanded only where neither scaling overflows the common rep.",
+        technique="TLC-emitted contracts/verdicts (C06 + C08 specs instantiated for durations) + trait TUs + operator sweep adjudicated by TLC", ref="6/C17"),
 }
 
 
